@@ -86,7 +86,7 @@ def run(ctx):
         return g
 
     def mc_safety():
-        for cfg in (["FakeNet_quick.cfg", "FakeNet_quick2.cfg"] if quick else ["FakeNet_quick2.cfg", "FakeNet_thorough.cfg"]):
+        for cfg in (["FakeNet_quick.cfg", "FakeNet_quick2.cfg"] if quick else ["FakeNet_quick2.cfg", "FakeNet_thorough.cfg", "FakeNet_thorough2.cfg"]):
             ctx.tlc("conc", "FakeNet", cfg, workers=3 if quick else 5, timeout_s=3000)
 
     def mc_live():
